@@ -68,6 +68,9 @@ structure Cfg where
   rule2In : Nat
   /-- `data.split(' ')` in the second rule -/
   rule2Split : Nat
+  /-- is exactly ONE trailing separator removed (`if data.endswith(sep): data = data[:-1]`; true) or all of
+      them (`data = data.rstrip(sep)`; false)? -/
+  stripOne : Bool
   /-- `data.find("\0", pos)` in parse_environ_block -/
   envNul : Nat
   /-- `data.find("=", pos, next_pos)` -/
@@ -238,9 +241,12 @@ def readFile (w : World) (f : FileSt) : Raw Bytes :=
 def lastIs (c : Nat) (s : Bytes) : Bool := s.getLast? == some c
 
 /-- the body of `cmdline()` after the emptiness test (`data` non-empty) -/
+def rstripAll (c : Nat) (s : Bytes) : Bytes := (s.reverse.dropWhile (· == c)).reverse
+
 def cmdlineSplit (cfg : Cfg) (data : Bytes) : List Bytes :=
   let sep := if lastIs cfg.sepTest data then cfg.sepNul else cfg.sepSpace
-  let data := if lastIs sep data then data.dropLast else data
+  let data :=
+    if cfg.stripOne then (if lastIs sep data then data.dropLast else data) else rstripAll sep data
   let cmdline := splitOn sep data
   if sep == cfg.rule2Sep && cmdline.length == 1 && data.contains cfg.rule2In then
     splitOn cfg.rule2Split data
